@@ -191,31 +191,6 @@ def lean_failing(t, binds):
     return f"ofOption ({t[0][:3]}Of ({lst}))"
 
 
-def lean_res(t):
-    """Lean text of type `PyRes Int` for an integer term that may contain partial operations"""
-    if t[0] == "ite" and (has_failing(t[2]) or has_failing(t[3])):
-        if has_failing(t[1]):
-            raise Untr("partial operation inside a condition")
-        return f"(if {lean_bool(t[1])} then {lean_res(t[2])} else {lean_res(t[3])})"
-    binds = []
-    body = lean_int(t, binds)
-    # bound operations may themselves contain earlier ones: emit in dependency order (inner first)
-    done, text_binds = [], []
-    i = 0
-    while i < len(binds):
-        name, bt = binds[i]
-        text_binds.append((name, bt))
-        i += 1
-    out = f".ok {body}"
-    for name, bt in reversed(text_binds):
-        inner = []
-        txt = lean_failing(bt, inner)
-        if inner:
-            raise Untr("nested partial operations")  # handled below by ordering
-        out = f"(match {txt} with | .error e => .error e | .ok {name} => {out})"
-    return out
-
-
 def lean_res_ordered(t):
     """like lean_res, but operands of a partial operation that are themselves partial are bound first"""
     if t[0] == "ite" and (has_failing(t[2]) or has_failing(t[3])):
@@ -266,6 +241,13 @@ class NoneV:
     pass
 
 
+class BlockV:
+    """`pattern.get_block(n)`"""
+
+    def __init__(self, size):
+        self.size = size
+
+
 class KidsV:
     pass
 
@@ -283,8 +265,8 @@ class ListV:
 
 
 class ObjV:
-    def __init__(self, role, attrs=None, length=None):
-        self.role, self.attrs, self.length = role, dict(attrs or {}), length
+    def __init__(self, role, attrs=None, length=None, truthy=None):
+        self.role, self.attrs, self.length, self.truthy = role, dict(attrs or {}), length, truthy
 
 
 def copy_env(env):
@@ -293,6 +275,10 @@ def copy_env(env):
 
 def is_doc(st):
     return isinstance(st, ast.Expr) and isinstance(st.value, ast.Constant) and isinstance(st.value.value, str)
+
+
+def assigns(st):
+    return any(isinstance(n, (ast.Assign, ast.AugAssign, ast.AnnAssign, ast.NamedExpr)) for n in ast.walk(st))
 
 
 def is_log(st):
@@ -346,6 +332,10 @@ class Sym:
             return v.truthy
         if isinstance(v, NoneV):
             return FALSE
+        if isinstance(v, ObjV) and v.truthy is not None:
+            return v.truthy
+        if isinstance(v, KidsV):
+            return ("ne", V("nKids"), I(0))
         raise Untr(f"truth value of {type(v).__name__}")
 
     def int_of(self, v):
@@ -446,6 +436,12 @@ class Sym:
         raise Untr("expression " + type(e).__name__)
 
     def compare(self, op, a, b):
+        if isinstance(op, (ast.In, ast.NotIn)) and isinstance(b, ListV) and not b.perchild:
+            x = self.int_of(a)
+            r = FALSE
+            for t in b.scalars:
+                r = t_or(r, ("eq", x, t))
+            return r if isinstance(op, ast.In) else t_not(r)
         if isinstance(a, ObjV) and isinstance(b, ObjV):
             if {a.role, b.role} == {"child", "sibling"}:
                 if isinstance(op, (ast.Eq, ast.Is)):
@@ -502,6 +498,8 @@ class Sym:
                     return IntV(v.length)
                 if isinstance(v, ObjV) and v.length is not None:
                     return v.length
+                if isinstance(v, KidsV):
+                    return IntV(V("nKids"))
                 raise Untr("len() of " + type(v).__name__)
             if f.id in ("max", "min"):
                 vals = [self.ev(a, env) for a in e.args]
@@ -556,6 +554,10 @@ class Sym:
                     recv = self.ev(f.value, env)
                 except Untr:
                     recv = None
+            if isinstance(recv, ObjV) and recv.role == "pattern" and f.attr == "get_block" and len(e.args) == 1 and not kw:
+                return BlockV(self.int_of(self.ev(e.args[0], env)))
+            if (recv == "class" or isinstance(recv, ObjV)) and recv != "class" and recv.role == "pattern":
+                raise Untr("pattern method " + f.attr)
             if (recv == "class" or isinstance(recv, ObjV)) and f.attr in self.methods:
                 fn = self.methods[f.attr]
                 args = [self.ev(a, env) for a in e.args]
@@ -806,12 +808,11 @@ class Sym:
             raise Untr("break inside a validation loop")
         if isinstance(st, ast.If):
             c = self.truth(self.ev(st.test, env))
-            out = []
-            if c != FALSE:
-                out += self.walk(st.body, copy_env(env), t_and(pc, c), scope, events, self_obj)
-            if c != TRUE:
-                out += self.walk(st.orelse, copy_env(env), t_and(pc, t_not(c)), scope, events, self_obj)
-            return out
+            a = self.walk(st.body, copy_env(env), t_and(pc, c), scope, events, self_obj) if c != FALSE else []
+            b = self.walk(st.orelse, copy_env(env), t_and(pc, t_not(c)), scope, events, self_obj) if c != TRUE else []
+            if len(a) == 1 and len(b) == 1 and not assigns(st):
+                return [(env, pc)]      # both branches fall through and change nothing: one state again
+            return a + b
         if isinstance(st, ast.For):
             if st.orelse:
                 raise Untr("for-else")
@@ -1226,6 +1227,144 @@ def gen_BinImageGeo() -> None:
 
     part("genCfgOffsetFile", "Option Int → Int → Int → Int → Int", b_cfg("binary_file", "genCfgOffsetFile"))
     part("genCfgOffsetBlock", "Option Int → Int → Int → Int → Int", b_cfg("binary_block", "genCfgOffsetBlock"))
+
+    # ------------------------------------------------------------------ export(): the fast path that returns the own binary unchanged
+    def b_fast():
+        fn = sym.method("export")
+        selfn = fn.args.args[0].arg
+        sobj = ObjV("self", {"_size": IntV(V("size")), "binary": BytesV(V("binTruthy", "Bool"), V("binLen")), "sub_images": KidsV(),
+                             "alignment": IntV(V("alignment"))}, IntV(V("selfLen")))
+        body = [s for s in fn.body if not is_doc(s) and not is_log(s)]
+
+        def returns_binary(st):
+            return isinstance(st, ast.Return) and isinstance(st.value, ast.Attribute) and st.value.attr == "binary" \
+                and isinstance(st.value.value, ast.Name) and st.value.value.id == selfn
+
+        if not body or not isinstance(body[0], ast.If) or body[0].orelse or not (len(body[0].body) == 1 and returns_binary(body[0].body[0])):
+            raise Untr("export() does not start with `if …: return self.binary`")
+        c = sym.truth(sym.ev(body[0].test, {selfn: sobj}))
+        check_vars(c, ["binTruthy", "binLen", "selfLen", "size", "nKids"])
+        return ("/-- `export()`: the own binary is returned as it is (no pattern, no padding) -/\n"
+                "def genExportFast (binTruthy : Bool) (binLen selfLen size nKids : Int) : Bool :=\n  " + lean_bool(c))
+
+    part("genExportFast", "Bool → Int → Int → Int → Int → Bool", b_fast)
+
+    # ------------------------------------------------------------------ save_binary_image (HEX / S19): what is handed to bincopy, in which order
+    sstate = {}
+
+    def save_events():
+        if "e" in sstate:
+            return sstate["e"]
+        fn = sym.method("save_binary_image")
+        inner = [n for n in ast.walk(fn) if isinstance(n, ast.FunctionDef) and n is not fn]
+        cands = [n for n in inner if any(isinstance(c, ast.Call) and isinstance(c.func, ast.Attribute) and c.func.attr == "add_binary" for c in ast.walk(n))]
+        if len(cands) != 1 or len(cands[0].args.args) != 1:
+            raise Untr("no single local helper that feeds the image into bincopy")
+        helper = cands[0]
+        pn = helper.args.args[0].arg
+        obj = ObjV("self", {"binary": BytesV(V("binTruthy", "Bool"), V("binLen")), "sub_images": KidsV(), "absolute_address": IntV(V("absAddr")),
+                            "offset": IntV(V("offset")), "pattern": ObjV("pattern", truthy=V("patTruthy", "Bool"))}, IntV(V("selfLen")))
+        events = []
+
+        def walk(stmts, env, pc, in_loop):
+            states = [(env, pc)]
+            for st in stmts:
+                nxt = []
+                for (e, p) in states:
+                    nxt += step(st, e, p, in_loop)
+                states = nxt
+            return states
+
+        def step(st, env, pc, in_loop):
+            if is_doc(st) or is_log(st):
+                return [(env, pc)]
+            if isinstance(st, ast.Return):
+                return []
+            if isinstance(st, ast.If):
+                c = sym.truth(sym.ev(st.test, env))
+                a = walk(st.body, copy_env(env), t_and(pc, c), in_loop)
+                b = walk(st.orelse, copy_env(env), t_and(pc, t_not(c)), in_loop)
+                if len(a) == 1 and len(b) == 1 and not assigns(st):
+                    return [(env, pc)]      # both branches fall through and change nothing: one state again
+                return a + b
+            if isinstance(st, ast.For):
+                it = sym.ev(st.iter, env)
+                if not isinstance(it, KidsV) or not isinstance(st.target, ast.Name) or in_loop or st.orelse:
+                    raise Untr("loop in the bincopy feeder")
+                e2 = copy_env(env)
+                e2[st.target.id] = ObjV("child")
+                walk(st.body, e2, pc, True)
+                return [(env, pc)]
+            if isinstance(st, ast.Expr) and isinstance(st.value, ast.Call):
+                c = st.value
+                if isinstance(c.func, ast.Name) and c.func.id == helper.name and len(c.args) == 1:
+                    a = sym.ev(c.args[0], env)
+                    if isinstance(a, ObjV) and a.role == "child" and in_loop:
+                        events.append(("children", pc, None, None))
+                        return [(env, pc)]
+                    raise Untr("recursion of the bincopy feeder on something else than a child")
+                if isinstance(c.func, ast.Attribute) and c.func.attr == "add_binary":
+                    args = list(c.args)
+                    kw = {k.arg: k.value for k in c.keywords}
+                    data = args[0] if args else kw.get("data")
+                    addr = args[1] if len(args) > 1 else kw.get("address")
+                    ow = args[2] if len(args) > 2 else kw.get("overwrite")
+                    if data is None or addr is None:
+                        raise Untr("add_binary without data / address")
+                    d = sym.ev(data, env)
+                    a = sym.int_of(sym.ev(addr, env))
+                    o = sym.truth(sym.ev(ow, env)) if ow is not None else FALSE
+                    if isinstance(d, BlockV):
+                        events.append(("pattern", pc, a, (o, d.size)))
+                    elif isinstance(d, BytesV):
+                        events.append(("binary", pc, a, (o, None)))
+                    else:
+                        raise Untr("add_binary of something else than the pattern block / the binary")
+                    return [(env, pc)]
+            sym.simple(st, env, None)
+            return [(env, pc)]
+
+        walk(helper.body, {pn: obj}, TRUE, False)
+        sstate["e"] = events
+        return events
+
+    def one_event(kind):
+        evs = [e for e in save_events() if e[0] == kind]
+        if len(evs) != 1:
+            raise Untr(f"{len(evs)} places hand the {kind} to bincopy")
+        return evs[0]
+
+    def b_save_pat():
+        _, pc, addr, (ow, size) = one_event("pattern")
+        check_vars(pc, ["patTruthy", "binTruthy", "selfLen", "binLen"])
+        return ("/-- HEX / S19: the node's pattern block is handed to bincopy -/\n"
+                "def savePatternWritten (patTruthy binTruthy : Bool) (binLen selfLen : Int) : Bool :=\n  " + lean_bool(pc) + "\n"
+                "/-- … with this many bytes -/\ndef savePatternSize (selfLen : Int) : Int :=\n  " + lean_int(size))
+
+    part("savePatternWritten", "Bool → Bool → Int → Int → Bool", b_save_pat)
+    if meta["functions"]["savePatternWritten"]["mode"] != "translated":
+        opaque("savePatternSize", "Int → Int", "see savePatternWritten", out, meta)
+
+    def b_save_bin():
+        _, pc, addr, (ow, _) = one_event("binary")
+        check_vars(pc, ["patTruthy", "binTruthy", "selfLen", "binLen"])
+        return ("/-- HEX / S19: the node's own binary is handed to bincopy -/\n"
+                "def saveBinaryWritten (patTruthy binTruthy : Bool) (binLen selfLen : Int) : Bool :=\n  " + lean_bool(pc))
+
+    part("saveBinaryWritten", "Bool → Bool → Int → Int → Bool", b_save_bin)
+
+    def b_save_shape():
+        items = []
+        for kind, pc, addr, extra in save_events():
+            if kind == "children":
+                items.append("children" + ("" if pc == TRUE else ":conditionally"))
+            else:
+                where = "absolute-address" if addr == V("absAddr") else "other-address"
+                items.append(f"{kind}@{where}" + ("+overwrite" if extra[0] == TRUE else ""))
+        return ("/-- HEX / S19: what a node hands to bincopy, in execution order (later data overwrites earlier data) -/\n"
+                "def saveOrder : List String := [" + ", ".join(f'"{x}"' for x in items) + "]")
+
+    part("saveOrder", "List String", b_save_shape)
 
     # ------------------------------------------------------------------ file formats and the ELF magic (constants by value)
     def b_formats():
